@@ -62,7 +62,7 @@ def floors(tier):
             'strict_equal_compared': 10000, 'prefix_rule_checked': 8000, 'recovery_exercised': 15000,
             'text_retention_checked': 20000, 'histkeys:truncation_tail': 9,
             'custom_context_soups': 500, 'parser_class_context_soups': 1000,
-            'parses_from_configured_state': 2000, 'stop_condition_entry_points': 3000, 'parser_class_truncations': 1000, 'histkeys:start_state': 17}
+            'parses_from_configured_state': 2000, 'stop_condition_entry_points': 3000, 'parser_class_truncations': 1000, 'k5_witness_checked': 1, 'prefix_cover_checked': 20000, 'configured_state_special_character_strings': 2000, 'histkeys:start_state': 17}
 
 
 WF_PARSER_CLASS_ATOMS = ['\\csl{WORD,WORD,WORD}', '\\csl{WORD, {WORD,WORD} ,WORD}', '\\chg{WORD{WORD}WORD}', '\\anyd(WORD)',
@@ -106,6 +106,29 @@ def dump(nl):
     return [canon.canon(n) for n in nl]
 
 
+def legacy_dummy_argument(nl):
+    """Does the tree hold a macro whose spec uses a pylatexenc-2 arguments parser object (MacroStandardArgsParser) and one
+    of whose arguments is the zero-width empty chars node that legacy get_latex_expression() substitutes for a missing
+    expression before a closing brace (strict_braces=False)?"""
+    from pylatexenc.macrospec import MacroStandardArgsParser
+    for n in canon.walk(nl):
+        if canon.kind(n) != 'macro' or getattr(n, 'spec', None) is None or n.nodeargd is None:
+            continue
+        ap = getattr(n.spec, 'arguments_parser', None)
+        if not isinstance(getattr(ap, 'args_parser', None), MacroStandardArgsParser):
+            continue
+        for a in (n.nodeargd.argnlist or []):
+            if a is not None and canon.kind(a) == 'chars' and a.chars == '' and a.pos == a.pos_end:
+                return True
+    return False
+
+
+def classify(case, msg, mech):
+    if mech == 'K5':
+        return 'legacy-argsparser-missing-argument-before-closing-brace'
+    return None
+
+
 def check_case(case, rec):
     s = case['s']
     ctx = work.ctx_for(case.get('ctx'))
@@ -137,23 +160,46 @@ def check_case(case, rec):
             'None' if nl is None else type(nl).__name__, s), mech='not-a-list')
         return
     # strict comparison
+    strict_error_pos = None
     try:
         snl = parse(s, ctx=ctx, tolerant=False, psopts=psopts)
         strict_ok = True
-    except LatexWalkerParseError:
+    except LatexWalkerParseError as e:
         strict_ok = False
+        strict_error_pos = e.pos if isinstance(getattr(e, 'pos', None), int) else None
     except Exception:
         strict_ok = False       # C05's business
     if strict_ok:
         rec.monitor('strict_equal_compared')
         a, b = dump(snl), dump(nl)
         if a != b or (snl.pos, snl.pos_end) != (nl.pos, nl.pos_end):
+            mech = 'differs-from-strict'
+            if legacy_dummy_argument(snl):
+                # known finding K5: mechanism = strict mode itself accepted a missing argument of a macro declared through
+                # a pylatexenc-2 arguments parser object by inserting the documented empty dummy chars node
+                mech = 'K5'
             rec.violation(case, 'tolerant tree differs from the strict tree on a valid input | input %r | strict %s | '
-                          'tolerant %s' % (s, canon.short(snl)[:500], canon.short(nl)[:500]), mech='differs-from-strict')
+                          'tolerant %s' % (s, canon.short(snl)[:500], canon.short(nl)[:500]), mech=mech)
             return
     else:
         rec.monitor('recovery_exercised')
         rec.nontrivial(s)
+        # nothing written before the first error may fall out of the tree: up to the position of the strict-mode error the
+        # top-level nodes of the tolerant result cover the input without a gap
+        if strict_error_pos is not None:
+            cur = 0
+            for n in nl:
+                if n is None or not isinstance(getattr(n, 'pos', None), int) or not isinstance(getattr(n, 'pos_end', None), int):
+                    break
+                if cur >= strict_error_pos:
+                    break
+                if n.pos > cur:
+                    rec.violation(case, 'input %r at %d..%d, before the first error at %d, is covered by no node of the tolerant '
+                                  'result | input %r | tree %s' % (s[cur:n.pos], cur, n.pos, strict_error_pos, s,
+                                                                   canon.short(nl)[:400]), mech='prefix-gap')
+                    return
+                cur = max(cur, n.pos_end)
+            rec.monitor('prefix_cover_checked')
     if 'kept_text' in case:
         # text written before the cut must still be there: each plain-text piece of the valid prefix is
         # carried by chars nodes of the tolerant result at its own position
@@ -242,6 +288,10 @@ def run_shard(desc, rec):
             rec.case()
             rec.monitor('parser_class_context_soups')
             check_case({'s': s, 'ctx': {'vocab': 'nlargs'}}, rec)
+        # known finding K5, deterministic witness
+        rec.case()
+        rec.monitor('k5_witness_checked')
+        check_case({'s': '{{}\\lgc%\n}', 'ctx': {'vocab': 'nlargs'}, 'special': 'K5-witness'}, rec)
         # text retention in the parser-class context: well-formed calls with unique words, cut at every position and
         # followed by a broken tail -- every word written before the cut is still carried by a chars node at its place
         import re as _re
@@ -266,6 +316,18 @@ def run_shard(desc, rec):
         for i, s in enumerate(work.soups(rng, max(400, desc['count'] // 3))):
             rec.case()
             check_case({'s': s, 'psopts': work.PS_CONFIGS[i % len(work.PS_CONFIGS)]}, rec)
+        # ... and strings built around the characters each configuration gives a special meaning
+        for cfg in work.PS_CONFIGS:
+            special = ''.join(str(v) for k, v in cfg.items() if k in ('forbidden_characters', 'macro_escape_char',
+                                                                      'comment_start', 'macro_alpha_chars'))
+            special += ''.join(c for pair in (cfg.get('latex_group_delimiters') or []) for c in pair)
+            special += ''.join(c for k in ('latex_inline_math_delimiters', 'latex_display_math_delimiters')
+                               for pair in (cfg.get(k) or []) for c in pair)
+            atoms = sorted(set(special)) + [' ', '\n', 'x', '{b}', '\\alpha ', '$', 'a', '%c\n', '}', '\\textbf']
+            for _ in range(40):
+                rec.case()
+                rec.monitor('configured_state_special_character_strings')
+                check_case({'s': ''.join(rng.choice(atoms) for _ in range(rng.randint(1, 6))), 'psopts': cfg}, rec)
     elif kind == 'truncate':
         from ..gen import doc as D
         tails = ['', '\\', '}', '$', '\\begin', '{', ']', '\\end{x}', '%']
